@@ -16,6 +16,7 @@ import (
 	ordertypes "github.com/SaoNetwork/sao/x/order/types"
 	saotypes "github.com/SaoNetwork/sao/x/sao/types"
 	sdk "github.com/cosmos/cosmos-sdk/types"
+	banktypes "github.com/cosmos/cosmos-sdk/x/bank/types"
 	govv1beta1 "github.com/cosmos/cosmos-sdk/x/gov/types/v1beta1"
 	paramproposal "github.com/cosmos/cosmos-sdk/x/params/types/proposal"
 	stakingtypes "github.com/cosmos/cosmos-sdk/x/staking/types"
@@ -410,7 +411,9 @@ func ScriptSidRewards() *replica.Script {
 // the gov end-blocker, not through the keeper's own setters) while nodes, an order, a fault report and rewards depend on
 // them; every height is a stream position.
 func ScriptGovParams() *replica.Script {
-	sc := &replica.Script{Name: "S6-gov-params", Cfg: world.Config{GovFast: true, OfflineTrigger: 30, VstorageThresh: 50_000_000, Baseline: 1}}
+	// the pledge stays far below the baseline, so the reward is the APY-based one (pledge x APY / (halving period / 2));
+	// adjustment heights are 20 and 40
+	sc := &replica.Script{Name: "S6-gov-params", Cfg: world.Config{GovFast: true, OfflineTrigger: 30, VstorageThresh: 500_000_000, Baseline: 1_000_000_000, BlockReward: 500_000, HalvingPeriod: 12, AdjustmentPeriod: 20, APY: "0.5"}}
 	coin := func(n int64) sdk.Coin { return sdk.NewInt64Coin(world.Denom, n) }
 	node := func(i int, st uint32) []replica.TxSpec {
 		return []replica.TxSpec{
@@ -459,7 +462,8 @@ func ScriptGovParams() *replica.Script {
 				paramproposal.NewParamChange(nodetypes.ModuleName, string(nodetypes.KeyOfflineTriggerHeight), `"4"`),
 				paramproposal.NewParamChange(nodetypes.ModuleName, string(nodetypes.KeyBlockReward), string(br)),
 				paramproposal.NewParamChange(nodetypes.ModuleName, string(nodetypes.KeyFishmenInfo), `"`+w.A(world.W).S()+`"`),
-				paramproposal.NewParamChange(nodetypes.ModuleName, string(nodetypes.KeyVstorageThreshold), `"5000000"`),
+				paramproposal.NewParamChange(nodetypes.ModuleName, string(nodetypes.KeyVstorageThreshold), `"50000000"`),
+				paramproposal.NewParamChange(nodetypes.ModuleName, string(nodetypes.KeyAPY), `"0.1"`),
 			})
 			m, err := govv1beta1.NewMsgSubmitProposal(content, sdk.NewCoins(coin(1000)), w.A(world.V).Addr)
 			if err != nil {
@@ -479,11 +483,73 @@ func ScriptGovParams() *replica.Script {
 	b4 := []replica.TxSpec{store("store(D2)", world.Data2), completeOpen(0),
 		fx("claim(S1)", func(w *world.World) sdk.Msg { return &nodetypes.MsgClaimReward{Creator: w.A(world.S1).S()} }),
 		fx("claim(S2)", func(w *world.World) sdk.Msg { return &nodetypes.MsgClaimReward{Creator: w.A(world.S2).S()} })}
-	sc.Blocks = []replica.Block{{Txs: b1}, {Txs: b2, SkipTo: 7, EveryHeight: true}, {Txs: b3, SkipTo: 13, EveryHeight: true}, {Txs: b4, SkipTo: 16, EveryHeight: true}}
+	sc.Blocks = []replica.Block{{Txs: b1}, {Txs: b2, SkipTo: 7, EveryHeight: true}, {Txs: b3, SkipTo: 13, EveryHeight: true}, {Txs: b4, SkipTo: 43, EveryHeight: true},
+		{Txs: []replica.TxSpec{fx("claim(S1,end)", func(w *world.World) sdk.Msg { return &nodetypes.MsgClaimReward{Creator: w.A(world.S1).S()} })}}}
+	return sc
+}
+
+// ScriptSuperRound: three super nodes share the round-robin cursor; the set shrinks below the cursor, a store fails
+// after its provider selection (the payer cannot afford it), the set grows back, and another order is placed.
+func ScriptSuperRound() *replica.Script {
+	sc := &replica.Script{Name: "S7-super-round", Cfg: world.Config{VstorageThresh: 1_000_000}}
+	val := func(w *world.World) string { return sdk.ValAddress(w.A(world.V).Addr).String() }
+	coin := func(n int64) sdk.Coin { return sdk.NewInt64Coin(world.Denom, n) }
+	var b1 []replica.TxSpec
+	b1 = append(b1,
+		fx("payaddr(O)", func(w *world.World) sdk.Msg {
+			return &didtypes.MsgUpdatePaymentAddress{Creator: w.A(world.O).S(), AccountId: w.A(world.O).AccountId(), Did: w.A(world.O).Did}
+		}),
+		fx("payaddr(X)", func(w *world.World) sdk.Msg {
+			return &didtypes.MsgUpdatePaymentAddress{Creator: w.A(world.X).S(), AccountId: w.A(world.X).AccountId(), Did: w.A(world.X).Did}
+		}),
+		fx("create(G)", func(w *world.World) sdk.Msg { return &nodetypes.MsgCreate{Creator: w.A(world.G).S()} }),
+		fx("reset(G)", func(w *world.World) sdk.Msg {
+			return &nodetypes.MsgReset{Creator: w.A(world.G).S(), Status: GatewayStatus}
+		}))
+	for _, i := range []int{world.S1, world.S2, world.S3} {
+		i := i
+		b1 = append(b1,
+			fx(fmt.Sprintf("create(%d)", i), func(w *world.World) sdk.Msg { return &nodetypes.MsgCreate{Creator: w.A(i).S()} }),
+			fx(fmt.Sprintf("addv(%d)", i), func(w *world.World) sdk.Msg { return &nodetypes.MsgAddVstorage{Creator: w.A(i).S(), Size_: 10_000_000} }),
+			fx(fmt.Sprintf("delegate(%d,200M)", i), func(w *world.World) sdk.Msg {
+				return &stakingtypes.MsgDelegate{DelegatorAddress: w.A(i).S(), ValidatorAddress: val(w), Amount: coin(200_000_000)}
+			}),
+			fx(fmt.Sprintf("reset(%d,full,V)", i), func(w *world.World) sdk.Msg {
+				return &nodetypes.MsgReset{Creator: w.A(i).S(), Status: FullStatus, Validator: val(w)}
+			}))
+	}
+	// X keeps almost nothing: its own store fails at the balance check, after the providers were selected
+	b1 = append(b1, replica.TxSpec{Name: "send(X->T,all but 5)", Build: func(w *world.World, ctx sdk.Context) sdk.Msg {
+		b := w.App.BankKeeper.GetBalance(ctx, w.A(world.X).Addr, world.Denom)
+		return &banktypes.MsgSend{FromAddress: w.A(world.X).S(), ToAddress: w.A(world.T).S(), Amount: sdk.NewCoins(sdk.NewCoin(world.Denom, b.Amount.SubRaw(5)))}
+	}})
+	store := func(name string, signer int, data string) replica.TxSpec {
+		return fx(name, func(w *world.World) sdk.Msg {
+			return StoreMsg(w, StoreP{Signer: signer, Relayer: world.G, Gateway: world.G, DataId: data, CommitId: data, Size: 1_000_000, Replica: 1, Duration: 3600, Timeout: 100})
+		})
+	}
+	d := func(n int) string {
+		return fmt.Sprintf("%d%d%d%d%d%d%d%d-aaaa-aaaa-aaaa-aaaaaaaaaaaa", n, n, n, n, n, n, n, n)
+	}
+	b2 := []replica.TxSpec{store("store(d1)", world.O, d(1)), store("store(d2)", world.O, d(2)), completeOpen(0), completeOpen(0)}
+	narrow := func(i int) replica.TxSpec {
+		return fx(fmt.Sprintf("reset(%d,not accepting)", i), func(w *world.World) sdk.Msg {
+			return &nodetypes.MsgReset{Creator: w.A(i).S(), Status: nodetypes.NODE_STATUS_ONLINE | nodetypes.NODE_STATUS_SERVE_STORAGE, Validator: val(w)}
+		})
+	}
+	widen := func(i int) replica.TxSpec {
+		return fx(fmt.Sprintf("reset(%d,full again)", i), func(w *world.World) sdk.Msg {
+			return &nodetypes.MsgReset{Creator: w.A(i).S(), Status: FullStatus, Validator: val(w)}
+		})
+	}
+	b3 := []replica.TxSpec{narrow(world.S2), narrow(world.S3), store("store(d3,payer cannot afford it,invalid)", world.X, d(3))}
+	b4 := []replica.TxSpec{widen(world.S2), widen(world.S3), store("store(d4)", world.O, d(4)), store("store(d5)", world.O, d(5)), completeOpen(0), completeOpen(0)}
+	b5 := []replica.TxSpec{store("store(d6)", world.O, d(6)), completeOpen(0)}
+	sc.Blocks = []replica.Block{{Txs: b1}, {Txs: b2}, {Txs: b3}, {Txs: b4}, {Txs: b5}}
 	return sc
 }
 
 // AllScripts lists every engine-R script (the child processes of the restart leg look them up by name).
 func AllScripts() []*replica.Script {
-	return []*replica.Script{ScriptStorage(false), ScriptStaking(), ScriptTies(), ScriptSidRewards(), ScriptGovParams(), ScriptStorage(true)}
+	return []*replica.Script{ScriptStorage(false), ScriptStaking(), ScriptTies(), ScriptSidRewards(), ScriptGovParams(), ScriptSuperRound(), ScriptStorage(true)}
 }
